@@ -14,21 +14,21 @@ import (
 )
 
 type SpecEnv struct {
-	u         *Unit
-	st        *State // state whose heaps non-old expressions read
-	old       *State // state for old(...)
-	names     map[string]Term
-	cs        *ContractSet
-	pkg       *types.Package
-	calleeSig *types.Signature
-	scopePos  token.Pos // position for resolving Go locals by name (own-function contracts)
-	own       bool      // contract of the unit itself: parameters denote entry values
-	inOld     bool
-	bound     map[string]Term
-	qn        int
+	u          *Unit
+	st         *State // state whose heaps non-old expressions read
+	old        *State // state for old(...)
+	names      map[string]Term
+	cs         *ContractSet
+	pkg        *types.Package
+	calleeSig  *types.Signature
+	scopePos   token.Pos // position for resolving Go locals by name (own-function contracts)
+	own        bool      // contract of the unit itself: parameters denote entry values
+	inOld      bool
+	bound      map[string]Term
+	qn         int
 	allowLemma bool
 	loopInv    bool
-	outOfScope bool // a named local does not exist on this path (clause skipped at this return)
+	outOfScope bool   // a named local does not exist on this path (clause skipped at this return)
 	reads      []Term // reference-typed values read from the heap while evaluating (for well-formedness facts)
 }
 
@@ -500,6 +500,31 @@ func (e *SpecEnv) call(x *ast.CallExpr) Term {
 				}
 			}
 			return Term{S: or(eq(r, "0"), "(>= "+r+" "+e.old.alloc+")"), T: types.Typ[types.Bool]}
+		case "freshin":
+			// freshin(N, x): the storage of x was allocated after the current iteration of loop N began
+			if len(x.Args) != 2 {
+				return e.fail("freshin(N, x) needs a loop ordinal and a value")
+			}
+			lit, ok := x.Args[0].(*ast.BasicLit)
+			if !ok {
+				return e.fail("freshin(N, x): N must be an integer literal")
+			}
+			n, err := strconv.Atoi(lit.Value)
+			if err != nil {
+				return e.fail("freshin(N, x): N must be an integer literal")
+			}
+			la, ok := u.loopAlloc[n]
+			if !ok {
+				return e.fail("freshin(%d, x) used outside loop %d", n, n)
+			}
+			a := e.eval(x.Args[1])
+			r := a.S
+			if a.T != nil {
+				if _, ok := a.T.Underlying().(*types.Slice); ok {
+					r = sRef(a.S)
+				}
+			}
+			return Term{S: or(eq(r, "0"), "(>= "+r+" "+la+")"), T: types.Typ[types.Bool]}
 		case "cidlen", "cidbyte":
 			// byte form of a cid.Cid value (pure functions of the value): its length and k-th byte
 			a := e.eval(x.Args[0])
@@ -679,6 +704,37 @@ func (e *SpecEnv) call(x *ast.CallExpr) Term {
 			return e.convert(e.eval(x.Args[0]), t)
 		}
 	}
+	// pkg.F(args): a spec function, or a pure contracted function, of an imported repository package
+	if se, ok := x.Fun.(*ast.SelectorExpr); ok {
+		if id, ok := se.X.(*ast.Ident); ok && e.bound[id.Name].S == "" && e.names[id.Name].S == "" {
+			if p := e.importedPkg(id.Name); p != nil && u.eng.isRepoPkg(p.Path()) {
+				var args []Term
+				for _, a := range x.Args {
+					args = append(args, e.eval(a))
+				}
+				cs2 := u.eng.contractsOf(p.Path())
+				if sf := cs2.SpecFuncs[se.Sel.Name]; sf != nil {
+					sub := &SpecEnv{u: u, st: e.st, old: e.old, names: map[string]Term{}, cs: cs2, pkg: p, inOld: e.inOld}
+					r := sub.applySpecFuncArgs(sf, args)
+					e.reads = append(e.reads, sub.reads...)
+					return r
+				}
+				if f, ok := p.Scope().Lookup(se.Sel.Name).(*types.Func); ok {
+					if ct, _ := u.eng.contractFor(f); ct != nil && ct.Pure {
+						sig := f.Type().(*types.Signature)
+						for k := range args {
+							if k < sig.Params().Len() {
+								args[k] = u.coerceSpec(args[k], sig.Params().At(k).Type())
+								args[k].T = sig.Params().At(k).Type()
+							}
+						}
+						return u.pureFuncApp(f, args, 0)
+					}
+					return e.fail("function %s.%s is not a pure contracted function", id.Name, se.Sel.Name)
+				}
+			}
+		}
+	}
 	// method call x.M(args) of a pure contracted repository method
 	if se, ok := x.Fun.(*ast.SelectorExpr); ok {
 		recv := e.eval(se.X)
@@ -771,16 +827,25 @@ func (e *SpecEnv) specSort(typ string) (string, types.Type) {
 }
 
 func (e *SpecEnv) applySpecFunc(sf *SpecFunc, x *ast.CallExpr) Term {
-	u := e.u
 	if len(x.Args) != len(sf.Params) {
 		return e.fail("spec function %s: wrong number of arguments", sf.Name)
 	}
 	var args []Term
-	for i, a := range x.Args {
-		t := e.eval(a)
+	for _, a := range x.Args {
+		args = append(args, e.eval(a))
+	}
+	return e.applySpecFuncArgs(sf, args)
+}
+
+// applySpecFuncArgs applies sf (declared in e's contract set / package) to already evaluated arguments.
+func (e *SpecEnv) applySpecFuncArgs(sf *SpecFunc, args []Term) Term {
+	u := e.u
+	if len(args) != len(sf.Params) {
+		return e.fail("spec function %s: wrong number of arguments", sf.Name)
+	}
+	for i := range args {
 		_, pt := e.specSort(sf.Params[i].Type)
-		t = u.coerceSpec(t, pt)
-		args = append(args, t)
+		args[i] = u.coerceSpec(args[i], pt)
 	}
 	rs, rt := e.specSort(sf.Result)
 	if sf.Body != nil && !sf.Recursive {
